@@ -13,8 +13,8 @@
     * `seededStep`     components that call `random.seed(self.seed)` before every draw from the global
                        generator (transfer.Hare L246-283, auxiliary.Sortitor / RandomUnrankedBallotSelector L57-97)
     * `rankValStep`    RankedVoteValidator.rank_vote_count_checkers (a defaultdict that materialises a checker
-                       for every rank it is asked about)                    vote.py L296-356
-    * `scoreValStep`   ScoreVoteValidator.sum_checkers (same mechanism)      vote.py L360-406, L470-478, L565-568
+                       for every rank it is asked about)                    vote.py L304-370 (explicit checker dicts are wrapped in a defaultdict too, L328-333)
+    * `scoreValStep`   ScoreVoteValidator.sum_checkers (same mechanism)      vote.py L374-432, L495-512, L575-590
 -/
 import VotelibModel.Core
 import VotelibModel.Gen.RankScore
@@ -320,18 +320,18 @@ def lcg : RngModel Nat Nat Nat where
 
 /-! ## validators: `collections.defaultdict` of magnitude checkers filled in on demand -/
 
-/-- `VoteMagnitudeChecker` (vote.py L129-172): inclusive bounds, `None` = unchecked -/
+/-- `VoteMagnitudeChecker` (vote.py L129-180): inclusive bounds, `None` = unchecked -/
 structure Bounds where
   lo : Option Rat
   hi : Option Rat
 deriving Repr, DecidableEq
 
-/-- `is_valid` (L156-161) -/
+/-- `is_valid` (L158-163) -/
 def Bounds.valid (b : Bounds) (v : Rat) : Bool :=
   (match b.lo with | none => true | some l => decide (l ≤ v)) &&
   (match b.hi with | none => true | some h => decide (v ≤ h))
 
-/-- `__bool__` (L152-154) -/
+/-- `__bool__` (L154-156) -/
 def Bounds.active (b : Bounds) : Bool := b.lo.isSome || b.hi.isSome
 
 /-- the contents of the defaultdict, in insertion order -/
@@ -349,7 +349,7 @@ structure RankValCfg where
   dflt : Bounds                 -- the default factory's checker
 deriving Repr
 
-/-- the item loop of `RankedVoteValidator.validate` (L339-349) for candidates the nominator accepts;
+/-- the item loop of `RankedVoteValidator.validate` (L356-366) for candidates the nominator accepts;
     accumulates the total and the candidates seen -/
 def rankValLoop (cfg : RankValCfg) : CheckerStore → Nat → Ballot → Nat → List Cand →
     CheckerStore × Except Err (Nat × List Cand)
@@ -360,7 +360,7 @@ def rankValLoop (cfg : RankValCfg) : CheckerStore → Nat → Ballot → Nat →
     if r.2.valid (size : Rat) then rankValLoop cfg r.1 (i + 1) rest (tot + size) (seen ++ it.cands)
     else (r.1, .error (.other "VoteMagnitudeError"))
 
-/-- `RankedVoteValidator.validate` (L327-356) as a step of the machine -/
+/-- `RankedVoteValidator.validate` (L339-370) as a step of the machine -/
 def rankValStep (cfg : RankValCfg) (st : CheckerStore) (vote : Ballot) : CheckerStore × Except Err Unit :=
   let r := rankValLoop cfg st 0 vote 0 []
   match r.2 with
@@ -373,8 +373,8 @@ def rankValStep (cfg : RankValCfg) (st : CheckerStore) (vote : Ballot) : Checker
 /-- what the subclasses check after `super().validate` -/
 inductive ScorePost where
   | none
-  | range (b : Bounds)          -- RangeVoteValidator (L565-568)
-  | enum (levels : List Rat)    -- EnumScoreVoteValidator (L476-478)
+  | range (b : Bounds)          -- RangeVoteValidator (L588-590)
+  | enum (levels : List Rat)    -- EnumScoreVoteValidator (L508-512)
 deriving Repr
 
 structure ScoreValCfg where
@@ -386,7 +386,7 @@ deriving Repr
 
 abbrev ScoreVote := List (Cand × Rat)
 
-/-- `ScoreVoteValidator.validate` (L388-406) + subclass checks, for well-formed pairs and accepted candidates -/
+/-- `ScoreVoteValidator.validate` (L408-432, numeric scores) + subclass checks, for well-formed pairs and accepted candidates -/
 def scoreValStep (cfg : ScoreValCfg) (st : CheckerStore) (vote : ScoreVote) : CheckerStore × Except Err Unit :=
   let n := vote.length
   if !cfg.nScorings.valid (n : Rat) then (st, .error (.other "VoteMagnitudeError"))
